@@ -12,6 +12,7 @@ Import ListNotations.
    allocation satisfies  sum_{l : V_l > 0} V_l / N_l <= (1 - theta) rmse^2 *)
 Theorem C06_budget : forall rmse V C, (0 < rmse)%R -> length V = length C ->
   Forall (fun v => 0 <= v)%R V -> Forall (fun c => 0 < c)%R C ->
+  in_range rmse (S_of V C) V C ->       (* every optimum below 2^63; otherwise the repaired code raises ValueError *)
   (est_var V (giles_alloc rmse V C) <= (1 - 1 / 4) * rmse ^ 2)%R.
 Proof. exact budget. Qed.
 (* ... and so do ANY sample sizes N_l >= sqrt(V_l/C_l) * T / B (T = sum sqrt(V C) when T > 0) *)
@@ -61,12 +62,22 @@ Theorem C06_return_without_bias_test_refuted :
     price_run sample cost alloc (fun _ => false) garbage 1%Q 1%Q 5 0 10 2 3 = Fallthrough s
     /\ (length (levels s) - 1 < 5)%nat /\ nconv s = 1%nat /\ map lN (levels s) = [3; 3; 3; 0]%nat.
 Proof. exact return_without_bias_test_ex. Qed.
-(* F-C06-3 (recorded): with initial_level > maximum_level levels above the maximum are simulated *)
-Theorem C06_level_above_maximum_refuted :
-  exists sample cost alloc conv garbage s,
-    price_run sample cost alloc conv garbage 1%Q 1%Q 1 0 10 3 3 = Converged s
-    /\ map lN (levels s) = [3; 3; 3; 3]%nat /\ (1 < length (levels s) - 1)%nat.
-Proof. exact level_above_maximum_ex. Qed.
+(* F-C06-3 repaired (fix-mc4 fd99a8c): NO guard on the configuration -- Engine.price either refuses
+   initial_level > maximum_level before anything is simulated (None) or returns safely *)
+Theorem C06_never_above_maximum :
+  forall sample cost alloc conv garbage df notional level_max phantom fuel L0 N0,
+    match price_entry sample cost alloc conv garbage df notional level_max phantom fuel L0 N0 with
+    | None => (level_max < L0)%nat
+    | Some o => (L0 <= level_max)%nat /\ safe_outcome alloc conv level_max o
+    end.
+Proof. exact never_above_maximum. Qed.
+(* F-C06-5 repaired (fix-mc4 f58964a): the generated allocation core never returns a wrapped integer -- it is the ceil of
+   the optimum when that is below 2^63 and the error value -1 (ValueError) otherwise *)
+Theorem C06_allocation_representable_or_error :
+  forall rmse v c T,
+    giles_alloc_core rmse v c T
+    = if Rltb (giles_optimal rmse v c T) int_bound then Rceil (giles_optimal rmse v c T) else (-1)%R.
+Proof. exact core_spec. Qed.
 
 (* budget and loop composed: at a return from the convergence branch whose last allocation answer is the Giles allocation
    of (V, C), the estimator variance with the sample sizes ACTUALLY used is within the 1% rule of the variance share *)
@@ -75,6 +86,7 @@ Theorem C06_budget_at_converged_return :
     (L0 <= level_max)%nat ->
     price_run sample cost alloc conv garbage df notional level_max phantom fuel L0 N0 = Converged s ->
     (0 < rmse)%R -> length V = length C -> Forall (fun v => 0 <= v)%R V -> Forall (fun c => 0 < c)%R C ->
+    in_range rmse (S_of V C) V C ->
     length (alloc (nalloc s - 1)%nat) = length (levels s) ->
     map IZR (alloc (nalloc s - 1)%nat) = giles_alloc rmse V C ->
     (est_var V (map (fun v => INR (lN v)) (levels s)) <= 101 / 100 * ((1 - 1 / 4) * rmse ^ 2))%R.
@@ -89,6 +101,13 @@ Theorem C06_termination_partial :
     exists fuel, price_run sample cost alloc conv garbage df notional level_max 0 fuel L0 N0 <> OutOfFuel.
 Proof. exact termination_bounded_demand. Qed.
 
+(* behaviour before the repair of F-C06-3: the loop entered above the maximum (price_run = the loop without the entry check) *)
+Example C06_level_above_maximum_before_repair :
+  exists sample cost alloc conv garbage s,
+    price_run sample cost alloc conv garbage 1%Q 1%Q 1 0 10 3 3 = Converged s
+    /\ map lN (levels s) = [3; 3; 3; 3]%nat /\ (1 < length (levels s) - 1)%nat.
+Proof. exact level_above_maximum_ex. Qed.
+
 (* behaviour before the repair of the bias tolerance (F-C06-1): rmse/sqrt 2 does not fit the 3/4 variance share *)
 Example C06_bias_plus_variance_before_repair :
   forall rmse, (0 < rmse)%R -> (rmse ^ 2 < (rmse / sqrt 2) ^ 2 + (1 - 1 / 4) * rmse ^ 2)%R.
@@ -101,6 +120,9 @@ Print Assumptions C06_bias_plus_variance.
 Print Assumptions C06_safety.
 Print Assumptions C06_fallthrough_characterised.
 Print Assumptions C06_return_without_bias_test_refuted.
-Print Assumptions C06_level_above_maximum_refuted.
+Print Assumptions C06_never_above_maximum.
+Print Assumptions C06_allocation_representable_or_error.
 Print Assumptions C06_budget_at_converged_return.
 Print Assumptions C06_termination_partial.
+Print Assumptions C06_level_above_maximum_before_repair.
+Print Assumptions C06_bias_plus_variance_before_repair.
